@@ -131,6 +131,13 @@ func loadKnown(verifDir string) ([]KnownFinding, error) {
 // Finish applies floors and known findings, writes evidence and replay files, prints the
 // VIOLATION / KNOWN-FINDING lines and returns the process exit code.
 func (c *Ctx) Finish(verifDir string, start time.Time, level string) int {
+	knownDir := verifDir
+	if os.Getenv("VERIF_NOEVIDENCE") != "" {
+		// trial runs against scratch trees (seeded changes, controls) must not overwrite the
+		// evidence of the real tree
+		verifDir = filepath.Join(os.TempDir(), "verif-scratch")
+		os.MkdirAll(verifDir, 0o755)
+	}
 	// floors
 	counts := map[string]int{}
 	for _, o := range c.Obls {
@@ -151,7 +158,7 @@ func (c *Ctx) Finish(verifDir string, start time.Time, level string) int {
 		c.add("anchor-floor", "no-obligations", token.NoPos, Undecided, "the check produced no obligation at all")
 	}
 
-	known, err := loadKnown(verifDir)
+	known, err := loadKnown(knownDir)
 	if err != nil {
 		c.add("known-findings", "known-findings.json", token.NoPos, Undecided, "cannot read known-findings.json: "+err.Error())
 	}
